@@ -15,6 +15,8 @@
 package table
 
 import (
+	"errors"
+
 	"github.com/RoaringBitmap/roaring/roaring64"
 	"github.com/vmihailenco/msgpack/v5"
 )
@@ -65,7 +67,14 @@ func Decode(data []byte) (*Table, error) {
 		return nil, err
 	}
 
-	t := New(p.Allocated)
+	// The pack arrives from the network. It has to be consistent with itself
+	// before any memory is allocated on its behalf.
+	if p.Offset > p.Allocated || uint64(len(p.Memory)) != p.Offset {
+		return nil, errors.New("corrupt table pack")
+	}
+
+	// Only the used part of the memory travels, and a decoded table is read-only.
+	t := New(p.Offset)
 	t.offset = p.Offset
 	t.inuse = p.Inuse
 	t.garbage = p.Garbage
